@@ -1,16 +1,17 @@
 (* C04 - well-formed archives. Statements only. *)
-From Coq Require Import List NArith ZArith Bool.
+From Coq Require Import List NArith ZArith Bool String.
 From Coq Require Import Strings.Byte.
 From NfpmV Require Import Lib.Bytes Model.Path Model.Content Model.Prepare Model.Payload Spec.C05 Spec.C01 Spec.C04.
 From NfpmV Require Import Proofs.KeyFacts Proofs.PlanFacts Proofs.C05Proofs Proofs.C01Proofs Proofs.C04Proofs Proofs.C04Plan Proofs.C04Parents.
 Import ListNotations.
+Open Scope list_scope.
 
 (* For deb, ipk, apk and archlinux and every plan of prepared entries with distinct locations, the member
    names of the payload tar written by the packager model are unique, relative, "./"-prefixed (deb, ipk),
    free of ".." components, and directory members end in "/" (the root excepted).
    (Kept from the first version: everything but "parents precede children"; the full statement is below.) *)
 Theorem C04_tar_names_wellformed_partial :
-  forall f mt cs, f <> FRpm -> all_prepared f cs -> NoDup (map location cs) ->
+  forall f mt cs, f <> FRpm -> all_prepared f cs -> NoDup (map location cs) -> named_root_ok f cs ->
   forall cl, In cl (check_names f (members_of (payload_of f mt cs))) -> cl = WParents.
 Proof. exact names_wellformed. Qed.
 Print Assumptions C04_tar_names_wellformed_partial.
@@ -19,6 +20,7 @@ Print Assumptions C04_tar_names_wellformed_partial.
 Theorem C04_plan_names_wellformed_partial :
   forall f fs st ces umask mt cs, f <> FRpm ->
   oracle_okb fs st umask mt ces = true -> prep fs st ces umask (fmt_name f) mt = Ok cs -> envelope_C01 cs = true ->
+  named_root_ok f cs ->
   forall cl, In cl (check_names f (members_of (payload_of f mt cs))) -> cl = WParents.
 Proof. exact plan_names_wellformed. Qed.
 Print Assumptions C04_plan_names_wellformed_partial.
@@ -27,7 +29,8 @@ Print Assumptions C04_plan_names_wellformed_partial.
    no clause of the name checker fails - "parents precede children" included: every member's directory is "", "./"
    or a directory member written earlier. *)
 Theorem C04_tar_names_wellformed :
-  forall f mt cs, f <> FRpm -> all_prepared f cs -> NoDup (map location cs) -> parents_beforeb [] cs = true ->
+  forall f mt cs, f <> FRpm -> all_prepared f cs -> NoDup (map location cs) -> named_root_ok f cs ->
+  parents_beforeb [] cs = true ->
   check_names f (members_of (payload_of f mt cs)) = [].
 Proof. exact names_wellformed_all. Qed.
 Print Assumptions C04_tar_names_wellformed.
@@ -35,6 +38,16 @@ Print Assumptions C04_tar_names_wellformed.
 Theorem C04_plan_names_wellformed :
   forall f fs st ces umask mt cs, f <> FRpm ->
   oracle_okb fs st umask mt ces = true -> prep fs st ces umask (fmt_name f) mt = Ok cs -> envelope_C01 cs = true ->
+  named_root_ok f cs ->
   check_names f (members_of (payload_of f mt cs)) = [].
 Proof. exact plan_names_wellformed_all. Qed.
 Print Assumptions C04_plan_names_wellformed.
+
+(* REFUTED without that hypothesis: apk and archlinux write the root directory - a tree or dir entry whose
+   destination is "/" - as a member with an EMPTY name (known finding C04-K1) *)
+Theorem C04_root_directory_member_refuted :
+  In WEmptyName (check_names FArch [([], true); (B "sub/", true)]) /\
+  as_rel (B "/") = [].
+Proof. split; [|reflexivity]. assert (H : existsb (fun c => match c with WEmptyName => true | _ => false end) (check_names FArch [([], true); (B "sub/", true)]) = true) by (vm_compute; reflexivity).
+  apply existsb_exists in H. destruct H as (c & Hin & Hc). destruct c; try discriminate Hc. exact Hin. Qed.
+Print Assumptions C04_root_directory_member_refuted.
